@@ -51,7 +51,20 @@ class Abs:
         if src == 'not root_started': return z3.Not(st['root_started'])
         if src in ('remaining_levels < 0', 'not remaining_levels'): return st['remaining_levels'] < 0 if src.endswith('< 0') else st['remaining_levels'] == 0
         if 'remaining_elements' in src: return None          # untracked: both outcomes are possible and none touches a tracked cell except by raising
+        names = {n.id for n in ast.walk(e) if isinstance(n, ast.Name)}
+        if names & (set(TRACKED) | {k[1:] for k in st if k.startswith('$')}):
+            # a test this interpreter has no reading for: an uninterpreted predicate of the cells it mentions, named by its text (the same
+            # text in both loaders is the same predicate; a test present in one loader only splits that loader's paths)
+            args = [st[n] if n in st else st['$' + n] for n in sorted(names) if n in st or '$' + n in st]
+            return z3.Function('test!' + src, *[a.sort() for a in args], z3.BoolSort())(*args)
         raise Unsupported('condition ' + src)
+
+    def mapexpr(self, e, st):
+        src = ast.unparse(e)
+        if src == 'nsmap_stack[-1]': return top(st['nsmap_stack'])
+        if isinstance(e, ast.Name) and '$' + e.id in st: return st['$' + e.id]
+        if isinstance(e, ast.Call) and isinstance(e.func, ast.Attribute) and e.func.attr == 'copy' and not e.args: return mcopy(self.mapexpr(e.func.value, st))
+        raise Unsupported('map expression ' + src)
 
     def stmt(self, s, st, pc, cont):
         src = ast.unparse(s)
@@ -69,7 +82,11 @@ class Abs:
         if isinstance(s, ast.Expr) and isinstance(s.value, (ast.Yield, ast.YieldFrom)): return cont(st, pc)
         st = dict(st)
         if src == 'nsmap_stack.pop()': st['nsmap_stack'] = pop(st['nsmap_stack'])
-        elif src == 'nsmap_stack.append(nsmap_stack[-1].copy())': st['nsmap_stack'] = push(st['nsmap_stack'], mcopy(top(st['nsmap_stack'])))
+        elif isinstance(s, ast.Expr) and isinstance(s.value, ast.Call) and ast.unparse(s.value.func) == 'nsmap_stack.append' and len(s.value.args) == 1:
+            st['nsmap_stack'] = push(st['nsmap_stack'], self.mapexpr(s.value.args[0], st))
+        elif isinstance(s, ast.Assign) and isinstance(s.targets[0], ast.Name) and s.targets[0].id not in TRACKED and s.targets[0].id not in ('root_started',) \
+                and any(isinstance(n, ast.Name) and n.id == 'nsmap_stack' for n in ast.walk(s.value)):
+            st['$' + s.targets[0].id] = self.mapexpr(s.value, st)      # a local alias of a map of the stack
         elif src == 'nsmap_stack[-1].update(start_ns)': st['nsmap_stack'] = settop(st['nsmap_stack'], mupdate(top(st['nsmap_stack']), st['start_ns']))
         elif src == 'start_ns.append(node)': st['start_ns'] = lappend(st['start_ns'], self.node)
         elif src == 'start_ns = []': st['start_ns'] = EMPTY
